@@ -46,9 +46,8 @@ pub fn map_stats(stats: &Stats) -> Bytes {
     bytes.put_slice(stats.kernel_version.as_bytes());
     bytes.put_u32_le(stats.iggy_server_version.len() as u32);
     bytes.put_slice(stats.iggy_server_version.as_bytes());
-    if let Some(semver) = stats.iggy_server_semver {
-        bytes.put_u32_le(semver);
-    }
+    // The SDK always reads 4 bytes here and treats 0 as a missing semver.
+    bytes.put_u32_le(stats.iggy_server_semver.unwrap_or(0));
 
     bytes.put_u32_le(stats.cache_metrics.len() as u32);
     for (key, metrics) in &stats.cache_metrics {
